@@ -304,6 +304,7 @@ def quick_unknown(g):
     if not g.concrete:
         g.ctx.solver.set("smt.mbqi", False)
         g.ctx.solver.set("rlimit", RLIMIT)
+        g.ctx.rlimit = RLIMIT          # keep this budget for every incremental check of the path
 
 
 def g_uf(g, name="uf"):
